@@ -268,9 +268,13 @@ def random_polygon(rng, num, center=(0, 0), size=10.0, family=None, cw=False):
     grid = grid_for(rng, num)
     if num == "int":
         size = max(size, 12.0)
+    elif grid is not None and grid * size < 24:
+        grid = int(math.ceil(24 / size))
     family = family or rng.choice(["star", "star", "convex", "rectilinear", "triangle"])
-    for _ in range(30):
+    for attempt in range(120):
         verts = None
+        if attempt > 60:
+            family = "triangle"
         if family == "star":
             n = rng.randint(4, 9)
             verts = star_polygon(rng, n, center, 0.4 * size, size, grid)
@@ -283,7 +287,7 @@ def random_polygon(rng, num, center=(0, 0), size=10.0, family=None, cw=False):
             verts, _ = rectilinear(rng, center, 2 * size, grid)
         if verts is not None and valid_polygon(verts, ccw=True):
             return poly_spec(verts, num, cw), {"family": family, "n": len(verts)}
-        family = rng.choice(["star", "convex"])
+        family = rng.choice(["star", "convex", "triangle"])
     raise RuntimeError("could not generate a polygon")
 
 
@@ -396,7 +400,7 @@ def random_connected(rng, num=None, curved=False, center=(0, 0), size=10.0, nhol
         num = "float"
     scale = size
     if num == "int":
-        scale = max(size, 40.0)
+        scale = max(size, 130.0)
     cx, cy = float(center[0]), float(center[1])
     parts = []
     if not unbounded:
@@ -433,7 +437,7 @@ def random_connected(rng, num=None, curved=False, center=(0, 0), size=10.0, nhol
         else:
             if num == "int":
                 hc = (round(hc[0]), round(hc[1]))
-            hole, _ = random_polygon(rng, num, hc, rho if num != "int" else max(rho, 6.0),
+            hole, _ = random_polygon(rng, num, hc, rho,
                                      family=rng.choice(["star", "convex", "triangle"]), cw=True)
         parts.append(hole)
     spec = {"t": "connected", "parts": parts}
@@ -445,7 +449,7 @@ def random_disjoint(rng, num=None, curved=False, center=(0, 0), size=10.0, ncomp
     num = num or rng.choice(["int", "frac", "float"])
     if curved:
         num = "float"
-    scale = size if num != "int" else max(size, 60.0)
+    scale = size if num != "int" else max(size, 450.0)
     cx, cy = float(center[0]), float(center[1])
     parts = []
     base = rng.uniform(0, math.tau)
